@@ -305,18 +305,19 @@ theorem reset_is_fresh (id chans : Nat) (fn : Bool) (o : Obj) (hcfg : o.cfg = cf
   unfold srcReset soxrClear
   simp only [M.bind, h1]
   rw [hcfg, hr]
-  simp only [Bool.false_eq_true, if_false, M.pure, rcOf, Option.isSome_none]
+  simp only [Bool.not_false, if_true, M.pure, rcOf, Option.isSome_none, Bool.false_eq_true, if_false]
   congr 3
   unfold fresh
   cases o
   simp_all
 
-/-- with `RESET_ON_CLEAR` (ids 3, 4, 5) `soxr_clear` goes on to `soxr_set_io_ratio(p, old ratio, 0)`. -/
-theorem reset_with_flag (o : Obj) (hr : o.cfg.reset = true) (c : Ctx) :
+/-- with `RESET_ON_CLEAR` (ids 3, 4, 5), channels set and a ratio stored, `soxr_clear` goes on to
+    `soxr_set_io_ratio(p, old ratio, 0)` on the object that still holds the old ratio. -/
+theorem reset_with_flag (o : Obj) (hr : o.cfg.reset = true) (hc : o.chans ≠ 0) (hz : isZero o.ioRatio = false) (c : Ctx) :
     soxrClear o c = M.bind (closeAll o) (fun _ =>
-      setIoRatio { o with ioRatio := 0, error := none, inited := false, flushing := false } o.ioRatio 0) c := by
+      setIoRatio { o with error := none, inited := false, flushing := false } o.ioRatio 0) c := by
   unfold soxrClear
-  simp [hr]
+  simp [hr, hc, hz]
 
 /-! ## totals: what the engine owes, then nothing
 
